@@ -40,7 +40,6 @@
 //! (builders are tuple structs with a private field), so "discards retained wire bytes" is checked
 //! as "after `protected(h)` the built `original_data` is `None`" from the reachable states.
 use crate::stubs::*;
-use crate::util::*;
 use alloc::string::String;
 use alloc::vec::Vec;
 use coset::cbor::value::Value;
@@ -701,6 +700,62 @@ fn c19_header_adders_amid_setters() {
     m.check(&h);
     let (op, ne) = (&hist.op, &hist.ne);
     kani::cover!(op[0] == H_IV && ne[0] && op[1] == H_KEY_ID && op[2] == H_PARTIAL_IV && ne[2] && h.rest.len() == 3);
+    core::mem::forget(h);
+}
+
+/// One symbolic call over ALL twelve call shapes of `HeaderBuilder` (setters and adders).
+fn header_any_step(b: HeaderBuilder, m: &mut MHeader, hist: &mut Hist) -> HeaderBuilder {
+    let op: u8 = kani::any();
+    kani::assume(op < 12);
+    let (nb, ne) = match op {
+        H_KEY_ID => h_key_id(b, m),
+        H_ALGORITHM => h_algorithm::<false>(b, m),
+        H_CONTENT_FORMAT => h_content_format::<false>(b, m),
+        H_CONTENT_TYPE => h_content_type(b, m),
+        H_IV => h_iv(b, m),
+        H_PARTIAL_IV => h_partial_iv(b, m),
+        6 => h_add_critical(b, m),
+        7 => h_add_critical_label_assigned(b, m),
+        8 => h_add_critical_label_text(b, m),
+        9 => h_add_counter_signature(b, m),
+        10 => h_value(b, m),
+        _ => h_text_value(b, m),
+    };
+    hist.push(op, ne);
+    nb
+}
+
+/// Thorough tier: any method (adders included, chosen symbolically) on a fresh builder, followed
+/// by any setter.
+#[kani::proof]
+#[kani::unwind(8)]
+#[kani::stub(alloc::fmt::format, format_stub)]
+fn c19x_header_any_then_setter() {
+    let (mut m, mut hist) = (MHeader::new(), Hist::new());
+    let b = header_any_step(HeaderBuilder::new(), &mut m, &mut hist);
+    let b = header_setter_steps::<1>(b, &mut m, &mut hist);
+    let h = b.build();
+    m.check(&h);
+    kani::cover!(hist.op[0] == 10 && hist.op[1] == H_IV && hist.ne[1] && h.rest.len() == 1);
+    kani::cover!(hist.op[0] == 9 && hist.op[1] == H_KEY_ID && h.counter_signatures.len() == 1);
+    core::mem::forget(h);
+}
+
+/// Thorough tier: every list already holds one element (fixed prefix, symbolic arguments), then
+/// any setter, then any method (adders included, chosen symbolically).
+#[kani::proof]
+#[kani::unwind(8)]
+#[kani::stub(alloc::fmt::format, format_stub)]
+fn c19x_header_populated_setter_then_any() {
+    let (mut m, mut hist) = (MHeader::new(), Hist::new());
+    let b = HeaderBuilder::new();
+    chain!(b, m; h_add_critical, h_add_counter_signature, h_text_value);
+    let b = header_setter_steps::<1>(b, &mut m, &mut hist);
+    let b = header_any_step(b, &mut m, &mut hist);
+    let h = b.build();
+    m.check(&h);
+    kani::cover!(hist.op[0] == H_PARTIAL_IV && hist.ne[0] && hist.op[1] == 10 && h.rest.len() == 2);
+    kani::cover!(hist.op[0] == H_IV && hist.ne[0] && hist.op[1] == H_PARTIAL_IV && hist.ne[1] && h.crit.len() == 1);
     core::mem::forget(h);
 }
 
